@@ -185,6 +185,9 @@ impl<T: Send> BoundedSyncSender<T> {
   }
 
   pub fn send_batch(&self, items: Vec<T>) -> Result<usize, SendBatchError<T>> {
+    if self.closed.load(Ordering::Relaxed) {
+      return Err(SendBatchError { sent: 0, unsent: items });
+    }
     let total = items.len();
     let mut iter = items.into_iter();
     let mut sent = 0;
